@@ -131,7 +131,7 @@ class C06(Check):
     level_note = ("theorems are about the Gallina model Model/TreeHash.v for an arbitrary two-to-one hash; the block "
                   "functions take the serialised header and the miner-transaction hash as inputs (the transaction codec and "
                   "id are C03/C05); tie to src/cryptonote/hash.rs and src/blockdata/block.rs is the correspondence check")
-    evalA_sample = 24
+    evalA_sample = 40     # only lines < 4000 characters are re-evaluated in the VM (<= 62 leaves, 30 ms per hash)
     model_shard = 1
 
     def leaves(self, rng, n, mode="random"):
